@@ -460,6 +460,7 @@ func c10net(rep *vh.Report, seed uint64, idx int) {
 		closed bool
 		midCut bool
 		udp    bool
+		pairs  [][2]uint64 // frames that travelled in one datagram
 	}
 	var mu sync.Mutex
 	var peers []*peer
@@ -488,6 +489,7 @@ func c10net(rep *vh.Report, seed uint64, idx int) {
 				}
 				defer conn.Close()
 				pe := &peer{label: "udp:" + conn.LocalAddr().String(), udp: true}
+				stalls := 0
 				n := vh.Pick(40, 200) + pr.Intn(100)
 				for i := 0; i < n; i++ {
 					uid := uint64(100+p)<<48 | uint64(i+1)
@@ -495,12 +497,23 @@ func c10net(rep *vh.Report, seed uint64, idx int) {
 					if pr.Chance(1, 8) {
 						w = append([]byte(nil), w...)
 						w[12] ^= 0x10 // wrong checksum, one frame per datagram
+					} else if pr.Chance(1, 6) {
+						// two whole frames in one datagram (294 bytes)
+						uid2 := uid | 1<<40
+						w = append(bigUidFrame(uid, byte(i), 5), uidFrame(uid2, byte(i), 5, false, nil, 0)...)
+						pe.want = append(pe.want, uid, uid2)
+						pe.pairs = append(pe.pairs, [2]uint64{uid, uid2})
 					} else {
 						pe.want = append(pe.want, uid)
 					}
 					_, _ = conn.Write(w)
 					// window: UDP is lossy under overload, keep at most 8 frames outstanding
-					waitFor(func() bool { return deliveredFor(pe.label) >= len(pe.want)-8 }, c.nEvents, 300*time.Millisecond)
+					if !waitFor(func() bool { return deliveredFor(pe.label) >= len(pe.want)-8 }, c.nEvents, 300*time.Millisecond) {
+						stalls++
+						if stalls >= 3 {
+							break
+						}
+					}
 				}
 				mu.Lock()
 				peers = append(peers, pe)
@@ -602,6 +615,16 @@ func c10net(rep *vh.Report, seed uint64, idx int) {
 		}
 		got := chs[0].UIDs
 		if pe.udp {
+			have := map[uint64]bool{}
+			for _, u := range got {
+				have[u] = true
+			}
+			for _, pr := range pe.pairs {
+				if have[pr[0]] != have[pr[1]] {
+					rep.Violation("what=lost ep=udp", "of two valid frames that arrived in one datagram (294 bytes) only one produced a frame event", pe.label)
+					break
+				}
+			}
 			// UDP may legitimately lose datagrams: order and uniqueness only
 			if classifySeq(got, pe.want) != "lost" && !eqU64(got, pe.want) {
 				rep.Violation("what="+classifySeq(got, pe.want)+" ep=udp", "UDP channel delivered duplicated / reordered / foreign frames", map[string]interface{}{"got": len(got), "want": len(pe.want)})
@@ -826,6 +849,7 @@ func c10clients(rep *vh.Report, seed uint64, idx int) {
 		kind, label string
 		want        []uint64
 		stream      bool
+		pairs       [][2]uint64 // frames that travelled in one datagram
 	}
 	var mu sync.Mutex
 	var out []res
@@ -857,13 +881,15 @@ func c10clients(rep *vh.Report, seed uint64, idx int) {
 		label := "tcp:" + ln.Addr().String()
 		waitFor(func() bool { return deliveredFor(label) >= len(uids) }, c.nEvents, time.Second)
 		mu.Lock()
-		out = append(out, res{"tcp-client", label, uids, true})
+		out = append(out, res{"tcp-client", label, uids, true, nil})
 		mu.Unlock()
 	}()
 	// datagram endpoints: one frame per datagram, at most 8 outstanding
 	dgram := func(kind, label string, send func(w []byte) error, pr *vh.RNG, tag int) {
 		defer wg.Done()
 		var want []uint64
+		var pairs [][2]uint64
+		stalls := 0
 		n := vh.Pick(60, 300) + pr.Intn(60)
 		for i := 0; i < n; i++ {
 			uid := uint64(tag)<<48 | uint64(i+1)
@@ -874,17 +900,29 @@ func c10clients(rep *vh.Report, seed uint64, idx int) {
 				w[len(w)-1] ^= 0x10 // wrong checksum
 			case 1:
 				w = []byte{1, 2, 3, 4, 5} // junk datagram
+			case 2:
+				// several whole frames in one datagram, 294 bytes in all (a datagram may carry up to the reader's 512)
+				uid2 := uint64(tag)<<48 | 1<<40 | uint64(i+1)
+				w = append(bigUidFrame(uid, byte(i), 5), uidFrame(uid2, byte(i), 5, false, nil, 0)...)
+				want = append(want, uid, uid2)
+				pairs = append(pairs, [2]uint64{uid, uid2})
+				rep.Count("datagrams_with_several_frames", 1)
 			default:
 				want = append(want, uid)
 			}
 			if err := send(w); err != nil {
 				break
 			}
-			waitFor(func() bool { return deliveredFor(label) >= len(want)-8 }, c.nEvents, 300*time.Millisecond)
+			if !waitFor(func() bool { return deliveredFor(label) >= len(want)-8 }, c.nEvents, 300*time.Millisecond) {
+				stalls++
+				if stalls >= 3 {
+					break // frames are not coming out any more: the verdict below says which
+				}
+			}
 		}
 		waitFor(func() bool { return deliveredFor(label) >= len(want) }, c.nEvents, 500*time.Millisecond)
 		mu.Lock()
-		out = append(out, res{kind, label, want, false})
+		out = append(out, res{kind, label, want, false, pairs})
 		mu.Unlock()
 	}
 	// UDP client: the node speaks first (heartbeats), we answer to where it spoke from
@@ -955,6 +993,17 @@ func c10clients(rep *vh.Report, seed uint64, idx int) {
 				rep.Violation("what="+classifySeq(got, x.want)+" ep="+x.kind, fmt.Sprintf("%d frame events for %d valid frames sent", len(got), len(x.want)), wit)
 			}
 			continue
+		}
+		// a datagram arrives whole or not at all: frames that travelled together are delivered together
+		have := map[uint64]bool{}
+		for _, u := range got {
+			have[u] = true
+		}
+		for _, pr := range x.pairs {
+			if have[pr[0]] != have[pr[1]] {
+				rep.Violation("what=lost ep="+x.kind, "of two valid frames that arrived in one datagram (294 bytes) only one produced a frame event", wit)
+				break
+			}
 		}
 		// datagrams may be lost under overload: order and uniqueness
 		if cl := classifySeq(got, x.want); cl != "lost" && !eqU64(got, x.want) {
